@@ -125,6 +125,23 @@ TEXT["C08"] = dict(
     design_ref="DESIGN.md §6a (C08 was planned as not applicable; the contract-shaped clause turned out to be within Verus' reach)",
 )
 
+TEXT["C16"] = dict(
+    category="other",
+    technique="Verus contracts on the real Loop::execute / LessThanN::evaluate (exactly n passes) + bounded native whole runs of the shipped templates",
+    text=("The clause 'performs exactly the requested number of iterations' is a consequence of contracts proved on the real code: "
+          "Loop::execute re-initialises its condition, tests it before every pass and increments the iteration counter after every "
+          "completed pass, LessThanN::evaluate is true exactly while the counter is below n, and the lemma "
+          "lemma_bounded_loop_makes_exactly_n_passes composes them for an ARBITRARY body that leaves the counter alone (unbounded). "
+          "That the bodies of the shipped templates complete without error, leave the population stack balanced (one population at the "
+          "end) and keep the prescribed population size is a whole-run property of 21 compositions of dyn components: it is covered "
+          "ONLY by a bounded native run (19 templates x 3 seeds x 15 iterations). It fails for the two ILS templates (one more "
+          "population on the stack per pass), recorded as a known finding."),
+    note=("Level 'other'. Planned as not applicable (no function-level contract decides a whole run); the iteration-count clause turned "
+          "out to be exactly the loop lemma already proved for C03/C10. Not covered: per-pass stack height (only the end of the run is "
+          "observed), the two ACO templates, other instances / parameter sets."),
+    design_ref="DESIGN.md §6a",
+)
+
 
 # ---- session-3 refinements, applied to the assembled strings (each `old` must occur: a stale patch is an error)
 _PATCHES = {
